@@ -49,6 +49,45 @@ Acceptable(s, term) ==
         F2 == IF term \in {"datatimeout", "timeout"} THEN F \cup {<<>>} ELSE F
     IN  {T \o f : f \in F2}
 
+(* Continuation after a read error.  A read timeout does not end the byte stream: the listener     *)
+(* wraps the connection in a TimeoutConn, which arms a fresh deadline on every Read, so a Read     *)
+(* issued after the one that timed out succeeds as soon as the peer has sent more.  s is now       *)
+(* everything the peer sends, the error `term` is returned when exactly the first e symbols were   *)
+(* received, s[e+1..] (the tail) is what reads issued after the error would get, followed by EOF.  *)
+(* A conforming handler invocation                                                                 *)
+(*  - stops at the error: it has dispatched one of Acceptable(s[1..e], term) -- nothing of the     *)
+(*    tail, the line straddling the error at most once, as the (open) partial fragment; or         *)
+(*  - (not forbidden by the statement) carries on as if no error had happened, and then it has     *)
+(*    dispatched exactly the lines of the whole s: the straddling line whole and once.             *)
+(* What the statement forbids is the mixture: the received part of the straddling line is          *)
+(* dispatched at the error and its remainder is dispatched as another line ("a metric split        *)
+(* across segments is never processed as two fragments") -- ReadOn gives those lists by name.      *)
+TimeoutTerms == {"datatimeout", "timeout"}
+Prefix(s, e) == SubSeq(s, 1, e)
+Shift(L, e) == [i \in 1..Len(L) |-> <<L[i][1] + e, L[i][2] + e>>]
+
+AcceptableAt(s, e, term) ==
+    Acceptable(Prefix(s, e), term) \cup
+    (IF term \in TimeoutTerms /\ e < Len(s) THEN Acceptable(s, "eof") ELSE {})
+
+\* the dispatch lists of the named deviation "read_on_after_error" (Framing.tla): the received part
+\* of the straddling line is dispatched when the read fails, then reading goes on and the tail is
+\* split into lines as if a new stream began at e + 1 (its first line is the second fragment)
+ReadOn(s, e) ==
+    LET p == Prefix(s, e)
+        a == LastStart(p)
+    IN  IF a > e THEN {}
+        ELSE {Terminated(p, 1, 1) \o <<f>> \o Shift(t, e) :
+                 f \in {DropCR(s, a, e), <<a, e>>},
+                 t \in Acceptable(SubSeq(s, e + 1, Len(s)), "eof")}
+
+\* the tails the case generators append to a stream for the timeout conditions: the rest of the
+\* straddling line (or only its terminator) followed by further, distinguishable lines
+ContTails == {<<"y", "CR", "LF", "x", "LF">>, <<"LF", "x", "y", "LF">>, <<"y", "LF", "x", "LF", "y">>}
+Conts(s) == {[tail |-> t,
+              acc |-> AcceptableAt(s \o t, Len(s), "timeout"),      \* = ... "datatimeout"
+              readon |-> ReadOn(s \o t, Len(s))] : t \in ContTails}
+
 \* length of the longest line of s including its terminator (what a bounded reader must hold; an
 \* unterminated final line is counted as if its terminator were still to come)
 RECURSIVE MaxLineFrom(_, _, _, _)
